@@ -50,8 +50,9 @@ def run(ctx):
                                "flags + 1 re-insertion; 5-certificate universes every order x root flags")
     else:
         hists += gen_histories(ctx, gl.SMALL, 0, 6, 2, 4, 3, "GraphGen small universes, <=6 ops, <=2 re-insertions")
-        hists += gen_histories(ctx, gl.FIVE_G, 0, 6, 1, 5, 5, "GraphGen four 5-certificate universes, <=6 ops, <=1 re-insertion")
-        hists += gen_histories(ctx, [n for n in gl.FIVE if n not in gl.FIVE_G], 0, 5, 0, 0, 5,
+        dup5 = ["rollover", "selfx5"]
+        hists += gen_histories(ctx, dup5, 0, 6, 1, 5, 5, "GraphGen rollover + selfx5 (5 certificates), <=6 ops, <=1 re-insertion")
+        hists += gen_histories(ctx, [n for n in gl.FIVE if n not in dup5], 0, 5, 0, 0, 5,
                                "GraphGen other 5-certificate universes, every order x root flags")
         hists += gen_histories(ctx, gl.SIX, 0, 6, 0, 0, 6, "GraphGen 6-certificate universes, every order x root flags")
         hists += gen_histories(ctx, [], 3, 4, 1, 3, 2, "GraphGen product universes of <=3, <=4 ops")
